@@ -5,6 +5,7 @@ import (
 	"sync"
 
 	"github.com/aperturerobotics/bifrost/link"
+	"github.com/aperturerobotics/bifrost/util/simhook"
 )
 
 // SolicitMountedStream is the value type for SolicitProtocol.
@@ -42,6 +43,7 @@ func (s *solicitMountedStream) AcceptMountedStream() (link.MountedStream, bool, 
 		return nil, false, s.err
 	}
 
+	simhook.Yield("solicit/mounted/accept", "")
 	s.mu.Lock()
 	defer s.mu.Unlock()
 
@@ -54,6 +56,7 @@ func (s *solicitMountedStream) AcceptMountedStream() (link.MountedStream, bool, 
 
 // IsAccepted returns whether the stream has been accepted.
 func (s *solicitMountedStream) IsAccepted() bool {
+	simhook.Yield("solicit/mounted/is-accepted", "")
 	s.mu.Lock()
 	defer s.mu.Unlock()
 	return s.accepted
@@ -62,6 +65,7 @@ func (s *solicitMountedStream) IsAccepted() bool {
 // Close closes the stream if it has not been accepted.
 // Returns true if the stream was closed (not accepted).
 func (s *solicitMountedStream) Close() bool {
+	simhook.Yield("solicit/mounted/close", "")
 	s.mu.Lock()
 	defer s.mu.Unlock()
 
